@@ -1125,11 +1125,35 @@ impl<'a> Block<'a> {
                         format!("CREATE CONCEPT ?k{} {{ TYPE {} NAME \"dup\" SET FIELDS {{key: {}}} }}", self.g.next(), jstr(&e.typ), jstr(&e.key)),
                     )
                 } else {
+                    // 2-5 keyed Concepts of one type in the block; one key occurs twice, at
+                    // arbitrary (not necessarily adjacent) positions, the others are distinct; now
+                    // and then a keyed Concept of ANOTHER type with the same key in between (legal)
                     let k = self.g.name("kd");
-                    Some(vec![
-                        Clause { kind: "f_key_conflict", text: format!("CREATE CONCEPT ?k{} {{ TYPE \"Preference\" NAME \"one\" SET FIELDS {{key: {}}} }}", self.g.next(), jstr(&k)) },
-                        Clause { kind: "f_key_conflict", text: format!("CREATE CONCEPT ?k{} {{ TYPE \"Preference\" NAME \"two\" SET FIELDS {{key: {}}} }}", self.g.next(), jstr(&k)) },
-                    ])
+                    let typ = *self.rng.pick(&["Preference", "Person"]);
+                    let m = 2 + self.rng.usize(4);
+                    let (mut i, mut j) = (self.rng.usize(m), self.rng.usize(m));
+                    if i == j {
+                        j = (i + 1) % m;
+                    }
+                    if i > j {
+                        std::mem::swap(&mut i, &mut j);
+                    }
+                    let mut out = vec![];
+                    for pos in 0..m {
+                        let key = if pos == i || pos == j { k.clone() } else { self.g.name("kx") };
+                        let text = if pos == j && self.rng.chance(1, 4) {
+                            format!("UPSERT CONCEPT ?k{} {{ MATCH {{type: {}, key: {}}} SET FIELDS {{name: \"n{pos}\"}} }}", self.g.next(), jstr(typ), jstr(&key))
+                        } else {
+                            format!("CREATE CONCEPT ?k{} {{ TYPE {} NAME \"n{pos}\" SET FIELDS {{key: {}}} }}", self.g.next(), jstr(typ), jstr(&key))
+                        };
+                        out.push(Clause { kind: "f_key_conflict", text });
+                        if pos == i && self.rng.chance(1, 3) {
+                            let other = if typ == "Person" { "Preference" } else { "Person" };
+                            out.push(Clause { kind: "f_key_conflict", text: format!("CREATE CONCEPT ?k{} {{ TYPE {} NAME \"o{pos}\" SET FIELDS {{key: {}}} }}", self.g.next(), jstr(other), jstr(&k)) });
+                        }
+                    }
+                    // the clause that completes the duplicate is the "failing" one: keep it last
+                    Some(out)
                 }
             }
             "tuple_conflict_commit" => {
